@@ -49,8 +49,8 @@ S_OUT, S_ERR, S_IN, S_CFG_OUT, S_CFG_IN = {"stream": 10}, {"stream": 11}, {"stre
 DOM_KW = {
     "asynchronous": BOOL, "disown": BOOL, "dry": BOOL, "echo": BOOL, "echo_stdin": BOOL, "fallback": BOOL, "pty": BOOL,
     "replace_env": BOOL, "warn": BOOL,
-    "encoding": [None, "utf-8", "latin-1"], "shell": [None, "/bin/sh", "/bin/zsh"],
-    "env": [None, {"map": {}}, {"map": {"A": "1"}}, {"map": {"A": "2", "B": "x"}}],
+    "encoding": [None, "utf-8", "latin-1"], "shell": [None, "/bin/sh", "/bin/zsh", "/opt/{sh}/%s"],
+    "env": [None, {"map": {}}, {"map": {"A": "1"}}, {"map": {"A": "2", "B": "x"}}, {"map": {"T{0}": "%s{}", "A": "${A}"}}],
     "hide": [None, False, True, "out", "err", "both", "stdout", "stderr"],
     "out_stream": [None, S_OUT], "err_stream": [None, S_ERR], "in_stream": [None, False, S_IN],
     "echo_format": [None, "RUN {command}"], "watchers": [None, {"list": 0}, {"list": 1}],
@@ -541,14 +541,20 @@ def impl_ctx(case):
             if k in ("R", "Q"):
                 Cap.fail_next = k == "Q"
                 n = len(launched)
+                crash = None
                 try:
                     c.run(t[1], **quiet)
+                except Failure:
+                    raise
+                except Exception as e:  # noqa - the text of a command must never make run() itself blow up
+                    crash = e
                 finally:
                     got = launched[n].started[0] if len(launched) > n and launched[n].started else None
                     events.append("r" + enc_chars(got if got is not None else "<nothing started>"))
                     want = prefixed(t[1], cds, pfs)
                     if got != want:
-                        problems.append("run(%r) inside cd%r prefix%r handed %r to the shell, demand %r" % (t[1], cds, pfs, got, want))
+                        problems.append("run(%r) inside cd%r prefix%r handed %r to the shell, demand %r%s" % (
+                            t[1], cds, pfs, got, want, "" if crash is None else " (run raised %s: %s)" % (type(crash).__name__, crash)))
                 pos += 1
             elif k == "U":
                 n = len(launched)
@@ -557,9 +563,15 @@ def impl_ctx(case):
                     kw["user"] = t[2]
                 if t[3]:
                     kw["env"] = {name: "v" for name in t[3]}
-                c.sudo(t[1], **kw)
-                got = launched[n].started[0]
-                events.append("r" + enc_chars(got))
+                crash = None
+                try:
+                    c.sudo(t[1], **kw)
+                except Failure:
+                    raise
+                except Exception as e:  # noqa - texts are data: no character of them may make sudo() blow up
+                    crash = e
+                got = launched[n].started[0] if len(launched) > n and launched[n].started else None
+                events.append("r" + enc_chars(got if got is not None else "<nothing started>"))
                 user = case["user"] if t[2] == "absent" else t[2]
                 want = "sudo -S -p '%s' " % case["prompt"]
                 if t[3]:
@@ -568,8 +580,9 @@ def impl_ctx(case):
                     want += "-H -u %s " % user
                 want += prefixed(t[1], cds, pfs)
                 if got != want:
-                    problems.append("sudo(%r, user=%r, env names %r) inside cd%r prefix%r ran %r, demand %r" % (
-                        t[1], t[2], t[3], cds, pfs, got, want))
+                    problems.append("sudo(%r, user=%r, env names %r) inside cd%r prefix%r ran %r, demand %r%s" % (
+                        t[1], t[2], t[3], cds, pfs, got, want,
+                        "" if crash is None else " (sudo raised %s: %s)" % (type(crash).__name__, crash)))
                 pos += 1
             elif k == "O":
                 events.append("s%s/%s" % (enc_strs(c.command_prefixes), enc_strs(c.command_cwds)))
@@ -641,25 +654,80 @@ RARE_PREFIXES = ["", " ", "a && b", "x;y", "~", "/", "cd /~z", "'q'", '"q"', "$(
 RARE_CMDS = ["", " ", "ls ~/x", "echo '/~'", "a && b", "cd /~ && pwd", "z" * 50]
 
 
-def rare(rng, fixed, plain):
+# texts that are special to Python's OWN string templating (str.format, %-formatting, string.Template): every text the
+# caller supplies is data and must reach the shell verbatim
+TPL = ["{", "}", "{}", "{0}", "{1}", "{{x}}", "${VAR}", "$V", "%s", "%(x)s", "%", "%%", "%d", "{command}", "{!r}", "{:>8}",
+       "{0[0]}", "{a.b}", "}{"]
+TPL_CMDS = ["find . -name '*.pyc' -exec rm {} ;", "echo ${HOME}", "awk '{print $1}' f", "mkdir -p /srv/{a,b}",
+            "xargs -I{0} echo {0}", "echo {{x}}", "printf '%s\\n' x", "echo %(x)s", "date +%Y-%m-%d", "echo 100%", "echo {",
+            "echo }", "echo {command}", "echo {1} {0}"]
+TPL_PATHS = ["/srv/{a}", "{}", "~/${USER}", "d{0}", "%s", "/x/%(y)s", "{{z}}", "a}b{", "100%", "/{", "~}"]
+TPL_PREFIXES = ["export P=${P}", "echo {}", "set -- {0}", "printf %s", "{{", "}}", '[ -n "${A:-}" ]', "%", "x={command}"]
+TPL_USERS = ["{u}", "%s", "a{0}", "u}", "{}", "${U}"]
+TPL_ENVS = ["{E}", "X%s", "A{0}", "${B}", "{}", "P%"]
+TPL_PROMPTS = ["{}> ", "pw {0}: ", "%s? ", "{{p}} ", "[sudo] {user}: ", "%(p)s", "}"]
+ATOMS += ["{", "}", "{}", "{0}", "%s", "%", "${V}", "{{", "}}"]
+
+
+def rare(rng, fixed, plain, tpl):
     x = rng.random()
-    if x < 0.4:
+    if x < 0.35:
         return rng.choice(plain)
-    if x < 0.7:
+    if x < 0.55:
         return rng.choice(fixed)
+    if x < 0.75:
+        return rng.choice(tpl) if rng.random() < 0.6 else rng.choice(plain) + rng.choice(TPL) + rng.choice(["", "x", " y"])
     return "".join(rng.choice(ATOMS) for _ in range(rng.randint(1, 5)))
 
 
 def gen_path(rng):
-    return rare(rng, RARE_PATHS, PATHS)
+    return rare(rng, RARE_PATHS, PATHS, TPL_PATHS)
 
 
 def gen_prefix(rng):
-    return rare(rng, RARE_PREFIXES, PREFIXES)
+    return rare(rng, RARE_PREFIXES, PREFIXES, TPL_PREFIXES)
 
 
 def gen_cmd(rng):
-    return rng.choice(CMDS) if rng.random() < 0.7 else rare(rng, RARE_CMDS, CMDS)
+    return rng.choice(CMDS) if rng.random() < 0.6 else rare(rng, RARE_CMDS, CMDS, TPL_CMDS)
+
+
+def gen_user_kw(rng):
+    return rng.choice(["absent", "absent", None, "bob", rng.choice(TPL_USERS)])
+
+
+def gen_env_names(rng):
+    return rng.choice([[], [], ["A"], ["A", "B_C"], [rng.choice(TPL_ENVS)], ["A", rng.choice(TPL_ENVS)]])
+
+
+def gen_prompt(rng):
+    return rng.choice(["[sudo] password: ", "PW> ", rng.choice(TPL_PROMPTS)])
+
+
+def gen_cfg_user(rng):
+    return rng.choice([None, None, "root", "al", rng.choice(TPL_USERS)])
+
+
+def template_family():
+    """every templating token in every text position (command, cd path, prefix, sudo user from kwarg / from config,
+    preserved env name, prompt), alone and embedded, for run AND sudo inside nested cd + prefix"""
+    out = []
+    for t in TPL:
+        for w in (t, "a" + t + "b"):
+            plain = dict(cmd="ls", path="/srv", pfx="act", ukw="absent", ucfg=None, env=[], prompt="PW> ")
+            for pos in ("cmd", "path", "pfx", "ukw", "ucfg", "env", "prompt"):
+                d = dict(plain)
+                d[pos] = [w] if pos == "env" else w
+                for with_user, with_env in ((False, False), (True, True)):
+                    ukw = d["ukw"] if pos == "ukw" or not with_user else "bob"
+                    env = d["env"] if pos == "env" or not with_env else ["A"]
+                    toks = [["C", d["path"]], ["P", d["pfx"]], ["R", d["cmd"]], ["U", d["cmd"], ukw, env],
+                            ["P", "inner"], ["U", d["cmd"], ukw, env], ["E"], ["E"], ["E"], ["U", d["cmd"], ukw, env], ["R", d["cmd"]]]
+                    out.append({"kind": "ctx", "prompt": d["prompt"], "user": d["ucfg"], "toks": toks})
+    for cmd in TPL_CMDS:
+        out.append({"kind": "ctx", "prompt": "[sudo] password: ", "user": None,
+                    "toks": [["U", cmd, "absent", []], ["R", cmd], ["C", "/w"], ["U", cmd, "bob", ["A"]], ["E"]]})
+    return out
 
 
 def gen_prog(rng, depth, budget):
@@ -673,8 +741,7 @@ def gen_prog(rng, depth, budget):
         if x < 0.22:
             toks.append(["R", gen_cmd(rng)])
         elif x < 0.30:
-            toks.append(["U", gen_cmd(rng), rng.choice(["absent", "absent", None, "bob"]),
-                         rng.choice([[], [], ["A"], ["A", "B_C"]])])
+            toks.append(["U", gen_cmd(rng), gen_user_kw(rng), gen_env_names(rng)])
         elif x < 0.42:
             toks.append(["O"])
         elif x < 0.50:
@@ -813,7 +880,7 @@ def run(ctx):
     cases = []
 
     def base_case(kw, cfg, ct=None):
-        return {"kind": "run", "cmd": rng.choice(["CMD", "make -j2 all", "echo hi"]), "kw": kw, "cfg": cfg,
+        return {"kind": "run", "cmd": rng.choice(["CMD", "make -j2 all", "echo hi", rng.choice(TPL_CMDS)]), "kw": kw, "cfg": cfg,
                 "cfg_timeout": ct, "penv": PENV}
 
     def sprinkle(kw, cfg, p):
@@ -896,8 +963,10 @@ def run(ctx):
     # (c) block programs
     for i in range(ctx.n(900, 14000)):
         toks = gen_prog(rng, 0, [rng.randint(3, 18)]) if i % 3 else gen_deep_exit(rng)
-        cases.append({"kind": "ctx", "prompt": rng.choice(["[sudo] password: ", "PW> "]), "user": rng.choice([None, None, "root", "al"]),
-                      "toks": toks})
+        cases.append({"kind": "ctx", "prompt": gen_prompt(rng), "user": gen_cfg_user(rng), "toks": toks})
+    tf = template_family()
+    cases += tf
+    out.hist["ctx:template-family"] = len(tf)
     # (d) cwd: every rare single component at depth 1..3 behind plain anchors, then random stacks
     for p in RARE_PATHS + PATHS:
         for pre in ([], ["/srv"], ["~"], ["rel"], ["/srv", "sub dir"]):
@@ -979,6 +1048,8 @@ def run(ctx):
         elif k == "run":
             out.case(c, bool(c["kw"] or c["cfg"]))
             got, why = check_run(c, defaults)
+            if any(ch in c["cmd"] for ch in "{}%"):
+                out.hist["run:cmd-with-template-chars"] += 1
             out.hist["run-outcome:" + got.split(" ")[0] + ("" if got.startswith("ok") else ":" + got.split(" ")[-1])] += 1
             if got.startswith("ok"):
                 if " start=- " in got:
@@ -1006,6 +1077,10 @@ def run(ctx):
                 out.hist["ctx:with-try"] += 1
             if any(t[0] == "U" for t in c["toks"]):
                 out.hist["ctx:with-sudo"] += 1
+                texts = [c["prompt"], c["user"] or ""] + [x for t in c["toks"] for x in t[1:] if isinstance(x, str)] + \
+                        [n for t in c["toks"] if t[0] == "U" for n in t[3]]
+                if any(ch in x for x in texts for ch in "{}%"):
+                    out.hist["ctx:sudo-with-template-chars"] += 1
         elif k == "sudopw":
             out.case(c, True)
             got, why = check_sudopw(c)
